@@ -318,6 +318,8 @@ def audit_instance(f, key, inst, findings, counts):
             if rv["k"] == "cast":
                 ck = rv["cast"]
                 kf, kt = f.types[rv["from"]]["kind"], f.types[rv["to"]]["kind"]
+                if ck == "transmute" and kf in ("rawptr", "ref") and kt == "int" and _only_feeds_pointer_check(body, st["place"]):
+                    continue          # debug-build null/alignment check of a raw pointer dereference
                 if ck in ("ptr_expose", "ptr_from_exposed") or (ck == "transmute" and ((kf in ("rawptr", "ref") and kt == "int") or (kf == "int" and kt in ("rawptr", "ref")))):
                     findings.append(("R16.4", "%s:ptr-int-cast#line%d" % (key, 0), "%s converts between pointer and integer (%s line %s)"
                                      % (short(key), ck, st.get("line"))))
@@ -332,6 +334,62 @@ def audit_instance(f, key, inst, findings, counts):
                 if dm is None:
                     dm = def_map(body)
                 _check_deref(f, key, body, dm, pl, findings, counts, st.get("line"))
+
+
+def _only_feeds_pointer_check(body, place):
+    """True if the local is used (transitively) only to compute the condition of a
+    misaligned/null pointer-dereference Assert inserted by the dev profile."""
+    if place["proj"]:
+        return False
+    work = [place["local"]]
+    seen = set()
+    reached_assert = False
+    while work:
+        l = work.pop()
+        if l in seen:
+            continue
+        seen.add(l)
+        for b in body["blocks"]:
+            for st in b["stmts"]:
+                if st["k"] != "assign":
+                    continue
+                uses = []
+                _collect_locals(st["rv"], uses)
+                if l in uses:
+                    if st["place"]["proj"]:
+                        return False
+                    if st["rv"]["k"] not in ("binop", "use", "unop", "cast"):
+                        return False
+                    work.append(st["place"]["local"])
+            t = b["term"]
+            uses = []
+            if t["k"] == "assert":
+                _collect_locals(t["cond"], uses)
+                if l in uses:
+                    if t["msg"].startswith("misaligned") or t["msg"].startswith("null_deref"):
+                        reached_assert = True
+                    else:
+                        return False
+            elif t["k"] in ("call", "switch"):
+                _collect_locals(t.get("args", []), uses)
+                _collect_locals(t.get("discr", {}), uses)
+                if l in uses:
+                    return False
+    return reached_assert
+
+
+def _collect_locals(x, out):
+    if isinstance(x, dict):
+        if "local" in x and "proj" in x:
+            out.append(x["local"])
+            for e in x["proj"]:
+                if e.get("k") == "index":
+                    out.append(e["local"])
+        for v in x.values():
+            _collect_locals(v, out)
+    elif isinstance(x, list):
+        for v in x:
+            _collect_locals(v, out)
 
 
 def _places(st):
@@ -366,7 +424,7 @@ def _check_deref(f, key, body, dm, pl, findings, counts, line):
                          % (short(key), d["pointee"], need, have, line)))
 
 
-def c16_structural(report, cfgs):
+def c16_structural(report, cfgs, addr_hits=None):
     counts = {}
     n_inst = 0
     seen = set()
@@ -380,7 +438,10 @@ def c16_structural(report, cfgs):
                 findings = []
                 audit_instance(f, k, inst, findings, counts)
                 for rule, ikey, what in findings:
-                    report.violated(rule, "%s@%s" % (ikey, cfg), what)
+                    if rule == "R16.4" and addr_hits is not None and ("align_to" in ikey or "align_offset" in ikey):
+                        addr_hits.append((cfg, k, f.defs[inst["def"]]["krate"], ikey, what))
+                    else:
+                        report.violated(rule, "%s@%s" % (ikey, cfg), what)
             # unions declared in workspace crates
             for tk, d in f.types.items():
                 if d.get("kind") == "union" and d.get("krate") in WORKSPACE_CRATES:
